@@ -2,3 +2,4 @@
 import UF.Driver.Ops.GroupE
 import UF.Props.C04
 import UF.Props.C12
+import UF.Proofs.ParseBits
